@@ -731,14 +731,14 @@ class StrategyBase(Node):
         # won't change
         if newpt or not is_zero(self._value - val) or not is_zero(self._notl_value - notl_val):
             self._value = val
-            self._values.values[inow] = val
+            self._values.array[inow] = val
 
             self._notl_value = notl_val
-            self._notl_values.values[inow] = notl_val
+            self._notl_values.array[inow] = notl_val
 
             if self._bidoffer_set:
                 self._bidoffer_paid = bidoffer_paid
-                self._bidoffers_paid.values[inow] = bidoffer_paid
+                self._bidoffers_paid.array[inow] = bidoffer_paid
 
             if self.fixed_income:
                 # For notional weights, we compute additive return
@@ -760,7 +760,7 @@ class StrategyBase(Node):
                         )
 
                 self._price = self._last_price + ret
-                self._prices.values[inow] = self._price
+                self._prices.array[inow] = self._price
 
             else:
                 bottom = self._last_value + self._net_flows
@@ -786,7 +786,7 @@ class StrategyBase(Node):
                         )
 
                 self._price = self._last_price * (1 + ret)
-                self._prices.values[inow] = self._price
+                self._prices.array[inow] = self._price
 
         # update children weights
         if self.children:
@@ -815,9 +815,9 @@ class StrategyBase(Node):
         # Cash should track the unallocated capital at the end of the day, so
         # we should update it every time we call "update".
         # Same for fees and flows
-        self._cash.values[inow] = self._capital
-        self._fees.values[inow] = self._last_fee
-        self._all_flows.values[inow] = self._net_flows
+        self._cash.array[inow] = self._capital
+        self._fees.array[inow] = self._last_fee
+        self._all_flows.array[inow] = self._net_flows
 
         # update paper trade if necessary
         if self._paper_trade:
@@ -827,7 +827,7 @@ class StrategyBase(Node):
                 self._paper.update(date)
             # update price
             self._price = self._paper.price
-            self._prices.values[inow] = self._price
+            self._prices.array[inow] = self._price
 
     @cy.locals(amount=cy.double, update=cy.bint, flow=cy.bint, fees=cy.double)
     def adjust(self, amount, update=True, flow=True, fee=0.0):
@@ -1410,14 +1410,14 @@ class SecurityBase(Node):
             elif data is not None:
                 prc = data[self.name]
                 self._price = prc
-                self._prices.values[inow] = prc
+                self._prices.array[inow] = prc
 
             # update bid/offer
             if self._bidoffer_set:
                 self._bidoffer = self._bidoffers.values[inow]
                 self._bidoffer_paid = 0.0
 
-        self._positions.values[inow] = self._position
+        self._positions.array[inow] = self._position
         self._last_pos = self._position
 
         if np.isnan(self._price):
@@ -1430,20 +1430,20 @@ class SecurityBase(Node):
 
         self._notl_value = self._value
 
-        self._values.values[inow] = self._value
-        self._notl_values.values[inow] = self._notl_value
+        self._values.array[inow] = self._value
+        self._notl_values.array[inow] = self._notl_value
 
         if is_zero(self._weight) and is_zero(self._position):
             self._needupdate = False
 
         # save outlay to outlays
         if self._outlay != 0:
-            self._outlays.values[inow] += self._outlay
+            self._outlays.array[inow] += self._outlay
             # reset outlay back to 0
             self._outlay = 0
 
         if self._bidoffer_set:
-            self._bidoffers_paid.values[inow] = self._bidoffer_paid
+            self._bidoffers_paid.array[inow] = self._bidoffer_paid
 
     @cy.locals(amount=cy.double, update=cy.bint, q=cy.double, outlay=cy.double, i=cy.int)
     def allocate(self, amount, update=True):
@@ -1726,7 +1726,7 @@ class FixedIncomeSecurity(SecurityBase):
 
         # For fixed income securities (bonds, swaps), notional value is position size, not value!
         self._notl_value = self._position
-        self._notl_values.values[inow] = self._notl_value
+        self._notl_values.array[inow] = self._notl_value
 
 
 class CouponPayingSecurity(FixedIncomeSecurity):
@@ -1857,8 +1857,8 @@ class CouponPayingSecurity(FixedIncomeSecurity):
             self._holding_cost = 0.0
 
         self._capital = self._coupon - self._holding_cost
-        self._coupon_income.values[inow] = self._coupon
-        self._holding_costs.values[inow] = self._holding_cost
+        self._coupon_income.array[inow] = self._coupon
+        self._holding_costs.array[inow] = self._holding_cost
 
     @property
     def coupon(self):
@@ -1915,7 +1915,7 @@ class HedgeSecurity(SecurityBase):
         """
         super(HedgeSecurity, self).update(date, data, inow)
         self._notl_value = 0.0
-        self._notl_values.values.fill(0.0)
+        self._notl_values.array[:] = 0.0
 
 
 class CouponPayingHedgeSecurity(CouponPayingSecurity):
@@ -1936,7 +1936,7 @@ class CouponPayingHedgeSecurity(CouponPayingSecurity):
         """
         super(CouponPayingHedgeSecurity, self).update(date, data, inow)
         self._notl_value = 0.0
-        self._notl_values.values.fill(0.0)
+        self._notl_values.array[:] = 0.0
 
 
 class Algo(object):
